@@ -98,7 +98,8 @@ Definition real_tour_ok (e : vehicle_id * Z * tour) : bool :=
 Definition dummy_tour_ok (e : vehicle_id * tour) : bool :=
   let '(v, t) := e in
   negb (vid_is_real v) && t_dummy t && negb (Nat.eqb (length (t_nodes t)) 0) &&
-  forallb (fun n => is_service (nd nw n)) (t_nodes t) &&
+  (* insert_path into a dummy tour may bring maintenance slots along; depots never *)
+  forallb (fun n => negb (is_depot (nd nw n))) (t_nodes t) &&
   forallb (fun '(a, b) => dt_leb (end_time nw a) (start_time nw b)) (windows (t_nodes t)).
 
 Fixpoint mem_nid' (n : node_id) (l : list node_id) : bool :=
